@@ -24,7 +24,7 @@ PLAIN_PY = '/venv/bin/python' if os.path.exists('/venv/bin/python') else sys.exe
 
 TIERS = {
     'quick': dict(conc_cap=64, deadline_s=240, chunk_paths=120, chunk_s=8, wit_per_task=6, max_decisions=4000, solver_timeout_ms=20000),
-    'thorough': dict(conc_cap=512, deadline_s=2400, chunk_paths=400, chunk_s=30, wit_per_task=10, max_decisions=20000, solver_timeout_ms=60000, fresh_rlimit=150000000),
+    'thorough': dict(conc_cap=512, deadline_s=2400, chunk_paths=400, chunk_s=30, wit_per_task=10, max_decisions=20000, solver_timeout_ms=60000, fresh_rlimit=150000000, cross_every=97),
 }
 
 # ------------------------------------------------------------------------------
@@ -69,6 +69,10 @@ def _run_task(task):
     ex.conc_cap = task.get('conc_cap') or tp['conc_cap']
     ex.max_decisions = tp['max_decisions']
     ex.path_budget_s = tp.get('path_s', 60)
+    ex.dump_every = tp.get('cross_every', 0)
+    ex.dump_cap = 2
+    ex.smt_samples = []
+    ex.dump_counter = task.get('seed', 0) % max(ex.dump_every, 1)
     core.set_explorer(ex)
     ex.worklist = [list(map(tuple_dec, p)) for p in task['prefixes']]
     res = {
@@ -144,6 +148,7 @@ def _run_task(task):
             res['samples'].append({'harness': h.name, 'cfg': cfg, 'outcome': outcome, 'path_decisions': ex.pos,
                                    'obligations_on_path': sorted(ctx.discharged)[:12]})
     res['leftover'] = [list(p) for p in ex.worklist]
+    res['smt_samples'] = ex.smt_samples
     res['queries'] = ex.nq
     res['solver_s'] = ex.tq
     res['unknowns'] = ex.unknowns
@@ -215,9 +220,9 @@ def decide(pid, tier, jobs, repo, seed, only=None, verbose=False):
         insts = h.instances(tier)
         per_h[h.name] = {'instances': len(insts), 'paths': 0, 'aborted': 0, 'decisions': 0, 'queries': 0, 'solver_s': 0.0,
                          'outcomes': Counter(), 'discharged': Counter(), 'trivial': 0, 'violations': [], 'inconclusive': [],
-                         'witnesses': [], 'unknowns': 0, 'maxdepth': 0, 'samples': [], 'cpu_s': 0.0, 'crash': [], 'slow': []}
+                         'witnesses': [], 'unknowns': 0, 'maxdepth': 0, 'samples': [], 'cpu_s': 0.0, 'crash': [], 'slow': [], 'smt': []}
         for cfg in insts:
-            t = {'pid': pid, 'repo': repo, 'harness': h.name, 'cfg': cfg, 'prefixes': [[]], 'tier_params': dict(tp, **h.budget.get(tier, {}))}
+            t = {'pid': pid, 'repo': repo, 'harness': h.name, 'cfg': cfg, 'prefixes': [[]], 'tier_params': dict(tp, **h.budget.get(tier, {})), 'seed': seed + len(tasks)}
             tasks.append(t)
     functions = set()
     deadline = t_start + tp['deadline_s']
@@ -254,6 +259,8 @@ def decide(pid, tier, jobs, repo, seed, only=None, verbose=False):
                     i['cfg'] = t['cfg']
                     st['inconclusive'].append(i)
                 st['witnesses'] += r['witnesses']
+                if len(st['smt']) < 24:
+                    st['smt'] += r.get('smt_samples', [])
                 if len(st['samples']) < 3:
                     st['samples'] += r['samples']
                 functions.update(r['functions'])
@@ -338,6 +345,40 @@ def decide(pid, tier, jobs, repo, seed, only=None, verbose=False):
             else:
                 reported.append((key, rp, v, o))
 
+    # ---- cross-solver re-check of a sample of discharged obligations (thorough tier) ----------------
+    cross = {'sampled': 0, 'z3_4.8.12': Counter(), 'cvc5': Counter()}
+    if tp.get('cross_every'):
+        smt = []
+        for hname, st in per_h.items():
+            smt += [(hname, lab, txt) for lab, txt in st['smt'][:24]]
+        cross['sampled'] = len(smt)
+        d = os.path.join(VERIF, 'out', 'smt2-%s-%d' % (pid, os.getpid()))
+        os.makedirs(d, exist_ok=True)
+        jobs_ = []
+        for i, (hname, lab, txt) in enumerate(smt):
+            fn = os.path.join(d, '%d.smt2' % i)
+            with open(fn, 'w') as f:
+                f.write(txt)
+            for name, cmd in (('z3_4.8.12', ['/usr/bin/z3', '-T:60', fn]), ('cvc5', ['cvc5', '--tlimit=60000', fn])):
+                jobs_.append((name, hname, lab, cmd))
+
+        def run_ext(j):
+            name, hname, lab, cmd = j
+            try:
+                out = subprocess.run(cmd, capture_output=True, text=True, timeout=90).stdout.strip().splitlines()
+                ans = [l for l in out if l in ('sat', 'unsat', 'unknown')]
+                return name, hname, lab, (ans[0] if ans and not any('(error' in l for l in out) else 'error')
+            except Exception:
+                return name, hname, lab, 'error'
+        from concurrent.futures import ThreadPoolExecutor
+        with ThreadPoolExecutor(max_workers=jobs) as tpool:
+            for name, hname, lab, ans in tpool.map(run_ext, jobs_):
+                cross[name][ans] += 1
+                if ans == 'sat':
+                    harness_errors.append('cross-solver disagreement: %s says sat for obligation %s:%s that z3 %s discharged' % (name, hname, lab, _z3_version()))
+        import shutil
+        shutil.rmtree(d, ignore_errors=True)
+
     # ---- vacuity guards ----------------------------------------------------------------
     vacuity = []
     for h in hs:
@@ -414,6 +455,7 @@ def decide(pid, tier, jobs, repo, seed, only=None, verbose=False):
                           for hname, st in per_h.items()},
             'reachability': {hname: dict(st['outcomes']) for hname, st in per_h.items()},
             'inconclusive': inconclusive[:40], 'harness_errors': [m[:500] for m in harness_errors][:20],
+            'cross_solver': {'sampled_obligations': cross['sampled'], 'z3_4.8.12': dict(cross['z3_4.8.12']), 'cvc5_1.0': dict(cross['cvc5'])},
             'known_findings': [k for k, _, _ in known], 'violations_reported': [k for k, _, _, _ in reported],
             'outside_claim': getattr(mod, 'OUTSIDE', []), 'stubs': getattr(mod, 'STUBS', []),
             'engine': 'symx (AST-instrumented real source on z3 bit-vector proxies), z3 %s' % _z3_version(),
